@@ -599,6 +599,60 @@ func raceSc_combineLatest(r *rand.Rand, rounds int) {
 	}
 }
 
+// every arity of the multi-source operators written out per source position (CombineLatest2..5, Zip2..6, MergeWith1..5),
+// each source on a goroutine of its own, piped into a STATEFUL single-producer operator (Scan / Pairwise): the state of
+// that operator is only safe because the multi-source operator above it hands a locking subscriber to its sources
+// (the constructor table, RoProps/C02b) — one arity built with the unsafe constructor shows as a race on Scan's state
+func raceSc_multiArity(r *rand.Rand, rounds int) {
+	g := func() ro.Observable[int] { return raceGoSource(6, r.Intn(2) == 0) }
+	one := func(int) int { return 1 }
+	_ = one
+	for i := 0; i < rounds; i++ {
+		var obs ro.Observable[int]
+		switch r.Intn(13) {
+		case 0:
+			obs = ro.Pipe1(ro.CombineLatest2(g(), g()), ro.Map(func(t lo.Tuple2[int, int]) int { return t.A }))
+		case 1:
+			obs = ro.Pipe1(ro.CombineLatest3(g(), g(), g()), ro.Map(func(t lo.Tuple3[int, int, int]) int { return t.A }))
+		case 2:
+			obs = ro.Pipe1(ro.CombineLatest4(g(), g(), g(), g()), ro.Map(func(t lo.Tuple4[int, int, int, int]) int { return t.A }))
+		case 3:
+			obs = ro.Pipe1(ro.CombineLatest5(g(), g(), g(), g(), g()), ro.Map(func(t lo.Tuple5[int, int, int, int, int]) int { return t.A }))
+		case 4:
+			obs = ro.Pipe1(ro.Zip2(g(), g()), ro.Map(func(t lo.Tuple2[int, int]) int { return t.A }))
+		case 5:
+			obs = ro.Pipe1(ro.Zip3(g(), g(), g()), ro.Map(func(t lo.Tuple3[int, int, int]) int { return t.A }))
+		case 6:
+			obs = ro.Pipe1(ro.Zip4(g(), g(), g(), g()), ro.Map(func(t lo.Tuple4[int, int, int, int]) int { return t.A }))
+		case 7:
+			obs = ro.Pipe1(ro.Zip5(g(), g(), g(), g(), g()), ro.Map(func(t lo.Tuple5[int, int, int, int, int]) int { return t.A }))
+		case 8:
+			obs = ro.Pipe1(ro.Zip6(g(), g(), g(), g(), g(), g()), ro.Map(func(t lo.Tuple6[int, int, int, int, int, int]) int { return t.A }))
+		case 9:
+			obs = ro.MergeWith(g())(g())
+		case 10:
+			obs = ro.MergeWith2(g(), g())(g())
+		case 11:
+			obs = ro.MergeWith3(g(), g(), g())(g())
+		default:
+			obs = ro.MergeWith4(g(), g(), g(), g())(g())
+		}
+		// stateful single-producer operators below
+		if r.Intn(2) == 0 {
+			obs = ro.Scan(func(acc int, v int) int { return acc + v }, 0)(obs)
+		} else {
+			obs = ro.Map(func(p []int) int { return len(p) })(ro.Pairwise[int]()(obs))
+		}
+		sub := obs.Subscribe(raceSinkOf[int]())
+		racePause(raceSpin(r))
+		if r.Intn(2) == 0 {
+			sub.Unsubscribe()
+		} else {
+			raceWaitSub(sub)
+		}
+	}
+}
+
 func raceSc_merge(r *rand.Rand, rounds int) {
 	for i := 0; i < rounds; i++ {
 		var obs ro.Observable[int]
@@ -811,6 +865,7 @@ func init() {
 	registerRaceScenario("zip", 80, raceSc_zip)
 	registerRaceScenario("combineLatest", 5000, raceSc_combineLatest)
 	registerRaceScenario("merge", 5000, raceSc_merge)
+	registerRaceScenario("multiArity", 6000, raceSc_multiArity)
 	registerRaceScenario("race", 5000, raceSc_race)
 	registerRaceScenario("bufferWhen", 4000, raceSc_bufferWhen)
 	registerRaceScenario("windowWhen", 4000, raceSc_windowWhen)
